@@ -16,7 +16,7 @@ ASSUMPTIONS = [
 ]
 BOUNDS = {
     'quick': '2 threads from {shell, stat, pull, streaming_shell}: coarse switch points with preemption bound 2, statement-level switch points with preemption bound 1; 2 async tasks, all completion orders; single-threaded interleavings of 2 generators (+1 operation); all device orderings',
-    'thorough': '3 threads (coarse, bound 2), 2 threads statement-level bound 2, 3 async tasks',
+    'thorough': 'quick, with coarse preemption bound 2 for all four pairs, plus 3 threads (coarse switch points, preemption bound 1) and 3 asyncio tasks (all completion orders) for three operation triples',
 }
 VALIDATE_EVERY = {'quick': 50, 'thorough': 100}
 DEADLINE = {'quick': 900, 'thorough': 3 * 3600}
@@ -291,13 +291,11 @@ def shapes(tier, seed):
         out.append({'h': 'interleave', 'impl': impl, 'gens': [[2, 1]], 'mid': 'stat', 'pick': True})
         out.append({'h': 'interleave', 'impl': impl, 'gens': [[1], [1]], 'mid': ['pull', {'recs': [1]}], 'pick': True})
     if not q:
-        # three threads (coarse switch points, preemption bound 2), split into 32 parts; bounded per part
-        for i in range(32):
-            out.append({'h': 'threads', 'ops': [small['shell'], small['stat'], small['shell']], 'preempt': 2, 'yields': False, 'max_paths': 150000, 'xpart': [i, 32, 10]})
-        # statement-level switch points with preemption bound 2
-        for a, b in pairs:
-            for i in range(16):
-                out.append({'h': 'threads', 'ops': [small[a], small[b]], 'preempt': 2, 'yields': True, 'max_paths': 150000, 'xpart': [i, 16, 10]})
-        for i in range(8):
-            out.append({'h': 'async', 'ops': [small['shell'], small['stat'], small['shell']], 'max_paths': 400000, 'xpart': [i, 8, 6]})
+        # three threads (coarse switch points, preemption bound 1) and three asyncio tasks (all completion orders)
+        triples = [('shell', 'stat', 'shell'), ('shell', 'sshell', 'pull'), ('stat', 'pull', 'shell')]
+        for t3 in triples:
+            out.append({'h': 'threads', 'ops': [small[x] for x in t3], 'preempt': 1, 'yields': False, 'max_paths': 400000})
+            out.append({'h': 'async', 'ops': [small[x] for x in t3], 'max_paths': 400000})
+        # (measured: preemption bound 2 with three threads, bound 3 with two, or statement-level bound 2 exceed 10^6 schedules
+        #  per shape and are not part of any tier)
     return out
